@@ -25,6 +25,8 @@ NOT_YET = {}
 
 exec(open(os.path.join(ROOT, "lib", "manifest_table.py")).read())
 
+for _k in CHECKS:
+    NOT_YET.pop(_k, None)
 hooks, fixes = repo_commits()
 m = {
     "version": 1,
